@@ -216,20 +216,48 @@ Section TlruBridge.
     revert P. unfold req, bind. crush; finish.
   Qed.
 
-  Lemma g_do_insert_update_ok (s : ttll K V) k v now ex a :
-    req (g_do_insert_update s k v now ex a) (tt_ins false s k v a now ex).
+  (* ---- the class invariant.  A refactoring may bind the reference m_elements[keyed_position->second] BEFORE it
+     looks at `allow` (harmless/R22): that is the same program only because every slot the index maps a key to is a
+     cell of m_elements.  The literal machine keeps this on every history (TtlLitFacts: tt_rep), so the bridge may
+     use it: [Inv] is what holds of the states the literal machine reaches, [idx_ok] the part of it needed here ---- *)
+  Definition idx_ok (s : ttll K V) : Prop :=
+    forall k n, assoc k (tt_index s) = Some n -> exists c, nth_error (tt_elems s) n = Some c.
+  Definition Inv (l : ttll K V) : Prop := exists t m, tl_inv false t m /\ tt_rep false l m.
+
+  Lemma Inv_idx_ok l : Inv l -> idx_ok l.
   Proof.
-    unfold g_do_insert_update, tt_ins. found k s idx A.
-    - destruct (a_upd a); cbn [negb].
-      + callee (g_do_update_ok s k idx v ex A). unfold bind. crush; finish.
-      + destruct (a_ins a); cbn [negb]; [|simpl; auto].
-        unfold vref, vget.
-        destruct (nth_error (tt_elems s) idx) as [e0|] eqn:N; [|simpl; auto]. cbn [bind]. rewrite ?N. cbn [bind].
-        zcases;
-          match goal with
-          | _ : (te_expire e0 <= now)%Z |- _ => callee (g_do_update_ok s k idx v ex A); unfold bind; crush; finish
-          | _ : (now < te_expire e0)%Z |- _ => simpl; auto
-          end.
+    intros (t & m & _ & R) k n A. destruct (rep2_elim _ _ _ R) as (used & free & R2).
+    destruct R2 as (_ & _ & _ & _ & _ & _ & C).
+    destruct C as (_ & _ & _ & _ & _ & _ & _ & _ & _ & _ & _ & _ & HB).
+    destruct (HB k n A) as (_ & c & Hc & _). eauto.
+  Qed.
+
+  Lemma Inv_init cap ttl : 1 <= cap -> Inv (ttll_init cap ttl).
+  Proof. intros Hc. exists 0%Z, (tl_init false cap ttl). split; [apply tl_inv_init; auto|apply tt_rep_init; auto]. Qed.
+
+  Lemma Inv_ins l k v a now ex l' b : Inv l -> tt_ins false l k v a now ex = Ok (l', b) -> Inv l'.
+  Proof.
+    intros (t & m & I & R) E. destruct (tt_ins_refines false t l m k v a now ex I R) as (l1 & D & R1 & I1 & _).
+    rewrite D in E. inversion E; subst. exists t, (fst (tl_ins m k v a now ex)). split; assumption.
+  Qed.
+
+  Lemma Inv_step l o now rnd l' y : Inv l -> tt_step false l o now rnd = Ok (l', y) -> Inv l'.
+  Proof.
+    intros (t & m & I & R) E. destruct (tt_step_refines_cap false t l m o now rnd I R) as (l1 & D & R1 & I1 & _).
+    rewrite D in E. inversion E; subst. exists now, (fst (tl_step m o now rnd)). split; assumption.
+  Qed.
+
+  (* the key-present case is split on what is MEANT — the cell of the slot (there is one: idx_ok), the two bits of
+     `allow`, the comparison of the time points as a proposition — and then both sides reduce, whether the source
+     nests the tests (if / else if / if) or merges them (a || (b && c)), and wherever it binds the reference *)
+  Lemma g_do_insert_update_ok (s : ttll K V) k v now ex a :
+    idx_ok s -> req (g_do_insert_update s k v now ex a) (tt_ins false s k v a now ex).
+  Proof.
+    intros I. unfold g_do_insert_update, tt_ins. found k s idx A.
+    - destruct (I k idx A) as [e0 N]. unfold vref, vget. rewrite ?N. cbn [bind]. rewrite ?N.
+      destruct (a_upd a), (a_ins a); cbn [bind negb andb orb]; rewrite ?N; cbn [bind negb andb orb]; zcases;
+        first [ solve [simpl; auto]
+              | callee (g_do_update_ok s k idx v ex A); unfold bind; crush; finish ].
     - destruct (a_ins a); cbn [negb]; [|simpl; auto].
       callee (g_do_insert_ok s k v now ex A). unfold bind. crush; finish.
   Qed.
@@ -262,17 +290,20 @@ Section TlruBridge.
   Qed.
 
   (* ---- the range calls: the generated range-for loops against the literal recursions ---- *)
-  Lemma g_insert_range_ok (s : ttll K V) now l a : req (g_insert_range now s l a) (tt_ins_range false s l a now 0).
+  Lemma g_insert_range_ok (s : ttll K V) now l a :
+    Inv s -> req (g_insert_range now s l a) (tt_ins_range false s l a now 0).
   Proof.
-    unfold g_insert_range.
+    intros Is. unfold g_insert_range.
     match goal with |- req (bind (foldM ?F _ _) _) _ =>
-      assert (G : forall l s n, req (foldM F l (s, n)) (tt_ins_range false s l a now n)) end.
-    { clear. induction l as [|[[z k] v] r IH]; intros s n; simpl; auto.
-      callee (g_do_insert_update_ok s k v now (now + ms z)%Z a). unfold bind at 1 2 3.
-      destruct (g_do_insert_update s k v now (now + ms z)%Z a) as [[s1 b]|], (tt_ins false s k v a now (now + ms z)%Z) as [[s2 b2]|];
+      assert (G : forall l s n, Inv s -> req (foldM F l (s, n)) (tt_ins_range false s l a now n)) end.
+    { clear. induction l as [|[[z k] v] r IH]; intros s n Is; simpl; auto.
+      callee (g_do_insert_update_ok s k v now (now + ms z)%Z a (Inv_idx_ok _ Is)). unfold bind at 1 2 3.
+      destruct (g_do_insert_update s k v now (now + ms z)%Z a) as [[s1 b]|],
+               (tt_ins false s k v a now (now + ms z)%Z) as [[s2 b2]|] eqn:L;
         intros P; try contradiction; auto.
-      inversion P; subst. destruct b2; cbn [bind]; rewrite ?Nat.add_1_r; apply IH. }
-    specialize (G l s 0). revert G.
+      inversion P; subst. pose proof (Inv_ins _ _ _ _ _ _ _ _ Is L) as Is2.
+      destruct b2; cbn [bind]; rewrite ?Nat.add_1_r; apply IH; auto. }
+    specialize (G l s 0 Is). revert G.
     destruct (foldM _ _ _) as [[s' n']|]; cbn [bind]; auto.
   Qed.
 
@@ -416,11 +447,12 @@ Section TlruBridge.
   Proof. induction l; simpl; congruence. Qed.
 
   Theorem g_step_ok (s : ttll K V) (e : ev K V) :
-    req (g_step s e) (tt_step false s (e_op e) (e_now e) (e_rnd e)).
+    Inv s -> req (g_step s e) (tt_step false s (e_op e) (e_now e) (e_rnd e)).
   Proof.
-    unfold g_step, tt_step. destruct (e_op e); try (simpl; auto; fail).
-    - unfold g_insert. callee (g_do_insert_update_ok s k v (e_now e) (e_now e + ms ttl)%Z a). unfold bind. crush; finish.
-    - callee (g_insert_range_ok s (e_now e) l a). unfold bind. crush; finish.
+    intros Is. unfold g_step, tt_step. destruct (e_op e); try (simpl; auto; fail).
+    - unfold g_insert. callee (g_do_insert_update_ok s k v (e_now e) (e_now e + ms ttl)%Z a (Inv_idx_ok _ Is)).
+      unfold bind. crush; finish.
+    - callee (g_insert_range_ok s (e_now e) l a Is). unfold bind. crush; finish.
     - callee (g_erase_ok s k). unfold bind. crush; finish.
     - callee (g_erase_range_ok s l). unfold bind. crush; finish.
     - unfold g_find. callee (g_do_find_ok s k (e_now e) peek). unfold bind. crush; finish.
@@ -440,6 +472,19 @@ Section TlruBridge.
     destruct (tt_step false l (e_op e) (e_now e) (e_rnd e)) as [[l1 y]|]; simpl; auto. rewrite IH. reflexivity.
   Qed.
 
+  (* the generated and the literal program run in step from a state of the invariant: the literal step keeps it *)
+  Lemma run_res_req_inv (f g : ttll K V -> ev K V -> res (ttll K V * ret K V)) (I : ttll K V -> Prop) :
+    (forall s e, I s -> req (f s e) (g s e)) ->
+    (forall s e s' y, I s -> g s e = Ok (s', y) -> I s') ->
+    forall h s, I s -> req (run_res f s h) (run_res g s h).
+  Proof.
+    intros Hfg Hp. induction h as [|e r IH]; intros s Is; simpl; [reflexivity|].
+    apply req_bind; [auto|]. intros [s1 y] E.
+    assert (Is1 : I s1).
+    { apply (Hp s e s1 y Is). apply req_ok. apply req_sym. rewrite <- E. auto. }
+    apply req_bind; [auto|]. intros [s2 ys] _. simpl. auto.
+  Qed.
+
   Theorem generated_tlru_no_UB_on_any_history : forall cap ttl (h : list (ev K V)),
       1 <= cap -> mono_from 0 h ->
       exists l', run_res g_step (ttll_init cap ttl) h = Ok (l', snd (run tl_step (tl_init false cap ttl) h)) /\
@@ -448,9 +493,9 @@ Section TlruBridge.
     intros cap ttl h Hc Hm.
     destruct (tt_no_UB_on_any_history false cap ttl h Hc Hm) as (l' & D & R).
     exists l'. split; auto.
-    pose proof (run_res_req g_step (fun l e => tt_step false l (e_op e) (e_now e) (e_rnd e)) (fun _ => True)
-                  (fun s e _ => g_step_ok s e) h (ttll_init cap ttl)) as Q.
-    rewrite <- tt_run_is_run_res, D in Q. apply req_ok. apply Q. clear. induction h; constructor; auto.
+    pose proof (run_res_req_inv g_step (fun l e => tt_step false l (e_op e) (e_now e) (e_rnd e)) Inv
+                  g_step_ok (fun s e s' y Is E => Inv_step _ _ _ _ _ _ Is E) h (ttll_init cap ttl) (Inv_init cap ttl Hc)) as Q.
+    rewrite <- tt_run_is_run_res, D in Q. apply req_ok. apply Q.
   Qed.
 
   (* ---- the constructor, translated (member initialisers + body): it builds the literal machine's initial state,
